@@ -3351,7 +3351,7 @@ theorem handleData_inv (e : Engine) (bs : Bytes) (hinv : Inv e) : Inv (e.handleD
     split
     · exact hinv.halt
     · simp only []
-      have h1 : Inv { e with dec := (decodeBytes { version := e.cfg.version, maxSize := e.cfg.connect.maximumPacketSize.getD maxPacket } e.dec bs).dec } :=
+      have h1 : Inv { e with dec := (decodeBytes { version := e.cfg.version, maxSize := e.inboundMax } e.dec bs).dec } :=
         hinv.of_eq rfl rfl
       split
       · exact h1.halt
